@@ -30,7 +30,7 @@ impl Prop for C08 {
     fn rule(&self) -> String {
         "plaintext lengths {0, 1, 100, 65535, 65536, 65537, 131072, random} x read schedules {full, oneshort, boundary, random, halves}: output length must be 132 (36) + 32 * max(1, non-empty reads) + |P|, \
          for 3 identity pairs with the same injected ephemeral key the clear view (magic, bytes 4..36, every record's 16 header bytes) must be identical and everything else differ, \
-         and the ciphertext must not contain either party's public key in raw, hex or base64 (with and without checksum) form; password mode: length formula for several passwords. non-trivial = distinct (mode, length, schedule)".into()
+         and the ciphertext must not contain either party's public key in raw, hex or base64 (with and without checksum) form; password mode: length formula for several passwords; the real binary: ciphertexts written by `kestrel encrypt` searched for the keyring names (raw, base64) and both public keys (raw, hex, base64, keyring encoding). non-trivial = distinct (mode, length, schedule)".into()
     }
     fn cases(&self, tier: &str, seed: u64) -> Vec<Case> {
         let th = tier == "thorough";
@@ -42,10 +42,30 @@ impl Prop for C08 {
             v.push(case(&[("mode", "key".into()), ("len", l.to_string()), ("rk", rk.into()), ("seed", rng.next().to_string())]));
             if th || l <= 65537 && (rk == "full" || rk == "random") { v.push(case(&[("mode", "pass".into()), ("len", l.to_string()), ("rk", rk.into()), ("seed", rng.next().to_string())])); }
         } }
+        for i in 0..(if th { 24 } else { 6 }) { v.push(case(&[("mode", "cli".into()), ("len", (*[0usize, 50, 70000].get(i % 3).unwrap()).to_string()), ("rk", "full".into()), ("seed", rng.next().to_string())])); }
         v
     }
     fn run(&self, c: &Case, _m: &mut Model) -> Outcome {
         let mut o = Outcome::default();
+        if get(c, "mode") == "cli" {
+            use crate::cli::*;
+            let fx = fixtures();
+            let mut rng = Rng::new(get(c, "seed").parse().unwrap_or(0));
+            let len = getn(c, "len"); let plain = payload(rng.next(), len);
+            let names = ["Alice Q. Sender-Person", "Bob the Recipient (work)"];
+            let kr = format!("[Key]\nName = {}\nPublicKey = {}\nPrivateKey = {}\n\n[Key]\nName = {}\nPublicKey = {}\n", names[0], fx.alice.enc_pk, fx.alice.enc_sk, names[1], fx.bob.enc_pk);
+            let w = World { files: vec![("p".into(), plain.clone()), ("kr".into(), kr.into_bytes())], env: vec![("KESTREL_PASSWORD".into(), fx.alice.pw.into())], stdin: vec![] };
+            let obs = run_kestrel(&w, &sv(&["encrypt", "p", "-t", names[1], "-f", names[0], "-o", "c", "-k", "kr", "--env-pass"]));
+            let Some(f) = obs.file("c").cloned() else { o.oracle_fail = Some(("encrypt-succeeds".into(), obs.stderr)); return o; };
+            o.tags.push("cli".into()); o.nontrivial = Some(format!("cli/{}/{}", len, get(c, "seed")));
+            o.impl_obs = format!("{}B ciphertext for {}B plaintext", f.len(), len);
+            if f.len() != 132 + 32 * len.div_ceil(65536).max(1) + len { o.oracle_fail = Some(("length-formula".into(), format!("CLI output is {} bytes for |P| = {}", f.len(), len))); return o; }
+            let mut needles: Vec<(String, Vec<u8>)> = vec![];
+            for n in names { needles.push((format!("keyring name {:?}", n), n.as_bytes().to_vec())); needles.push((format!("base64 of name {:?}", n), Base64::encode_to_string(n.as_bytes()).unwrap().into_bytes())); }
+            for (who, id) in [("sender", &fx.alice), ("recipient", &fx.bob)] { needles.push((format!("{} public key (raw)", who), id.pk.clone())); needles.push((format!("{} public key (keyring encoding)", who), id.enc_pk.clone().into_bytes())); needles.push((format!("{} public key (hex)", who), hex(&id.pk).into_bytes())); needles.push((format!("{} public key (base64)", who), Base64::encode_to_string(&id.pk).unwrap().into_bytes())); }
+            for (what, n) in needles { if find(&f, &n) { o.oracle_fail = Some(("no-identity-in-file".into(), format!("the ciphertext written by the CLI contains the {}", what))); return o; } }
+            return o;
+        }
         let mut rng = Rng::new(get(c, "seed").parse().unwrap_or(0));
         let len = getn(c, "len"); let p = payload(rng.next(), len);
         let rs = read_schedule(get(c, "rk"), len, 65536, &mut rng);
